@@ -98,6 +98,14 @@ func (x *Exec) translateObligation(ob *Obligation) (q *Query) {
 	}
 	q.CandN = cands.size()
 	vals := x.modelTerms()
+	for _, l := range lines {
+		if strings.HasPrefix(l, "(declare-const sk_") {
+			f := strings.Fields(l)
+			if len(f) == 3 && (f[2] == "Int)" || f[2] == "Bool)") {
+				vals = append(vals, f[1])
+			}
+		}
+	}
 	if ob.mustSat {
 		// cover: hypotheses + reachability must be satisfiable
 		q.Script = x.b.Script(ob.mark, append(lines, "(assert "+ob.guard.S+")"), tFalse, nil)
@@ -120,7 +128,7 @@ func (x *Exec) modelTerms() []string {
 			out = append(out, s)
 		}
 	}
-	for _, in := range x.b.inputs {
+	for _, in := range x.inputTerms() {
 		add(in)
 	}
 	for _, mt := range x.modelExtra {
